@@ -46,7 +46,7 @@ func die(format string, a ...interface{}) {
 var seams = map[string]map[string]string{
 	"sync": {"Mutex": "Mutex", "RWMutex": "RWMutex", "Pool": "Pool", "WaitGroup": "WaitGroup", "Once": "Once", "Cond": "!", "NewCond": "!", "Map": "!", "OnceFunc": "!", "OnceValue": "!", "OnceValues": "!"},
 	"time": {"Now": "Now", "Since": "Since", "Until": "Until", "Sleep": "Sleep",
-		"After": "After", "AfterFunc": "!", "NewTimer": "!", "NewTicker": "!", "Tick": "!"},
+		"After": "After", "AfterFunc": "AfterFunc", "NewTimer": "NewTimer", "NewTicker": "NewTicker", "Tick": "Tick", "Timer": "Timer", "Ticker": "Ticker"},
 	"os":                           {"ReadFile": "ReadFile", "Open": "Open", "OpenFile": "OpenFile", "Stat": "Stat", "Lstat": "Stat"},
 	"io/ioutil":                    {"ReadFile": "ReadFile"},
 	"github.com/fsnotify/fsnotify": {"NewWatcher": "NewWatcher", "NewBufferedWatcher": "NewBufferedWatcher", "Watcher": "Watcher"},
@@ -55,16 +55,16 @@ var seams = map[string]map[string]string{
 		// real sockets and the resolver have no place in a simulated run (the server's sockets come from server4/server6)
 		"Listen": "!", "ListenPacket": "!", "ListenUDP": "!", "ListenMulticastUDP": "!", "ListenIP": "!", "ListenConfig": "!", "Dial": "!", "DialUDP": "!", "DialIP": "!",
 		"DialTimeout": "!", "Dialer": "!", "FilePacketConn": "!", "FileConn": "!", "LookupHost": "!", "LookupIP": "!", "LookupAddr": "!", "ResolveUDPAddr": "!", "ResolveIPAddr": "!"},
-	"syscall":                      {"Socket": "SysSocket", "Close": "SysClose", "SetsockoptInt": "SysSetsockoptInt", "Sendto": "SysSendto"},
+	"syscall": {"Socket": "SysSocket", "Close": "SysClose", "SetsockoptInt": "SysSetsockoptInt", "Sendto": "SysSendto"},
 	// the UDP sockets of server.listen4/listen6 ("pkg:Name" = a name in zzverif/<pkg>; the type names are kept so that
 	// the embedded field of listener4/listener6 is still called PacketConn)
 	"github.com/insomniacslk/dhcp/dhcpv4/server4": {"NewIPv4UDPConn": "NewIPv4UDPConn"},
 	"github.com/insomniacslk/dhcp/dhcpv6/server6": {"NewIPv6UDPConn": "NewIPv6UDPConn"},
 	"golang.org/x/net/ipv4":                       {"NewPacketConn": "sim4:NewPacketConn", "PacketConn": "sim4:PacketConn", "NewConn": "!", "NewRawConn": "!"},
 	"golang.org/x/net/ipv6":                       {"NewPacketConn": "sim6:NewPacketConn", "PacketConn": "sim6:PacketConn", "NewConn": "!"},
-	"math/rand":                    {"*": "!"},
-	"math/rand/v2":                 {"*": "!"},
-	"crypto/rand":                  {"*": "!"},
+	"math/rand":                                   {"*": "!"},
+	"math/rand/v2":                                {"*": "!"},
+	"crypto/rand":                                 {"*": "!"},
 }
 
 type rewriter struct {
